@@ -102,6 +102,19 @@ func applyTamper(env *LogEnv, rng *Rng, op *TamperOp) bool {
 		bit := op.Arg % (len(raw) * 8)
 		raw[bit/8] ^= 1 << uint(bit%8)
 		env.W.Put(key, refGzip(raw))
+	case "append-junk": // valid gzip of payload || junk
+		raw, err := refGunzip(cur)
+		if err != nil {
+			return false
+		}
+		env.W.Put(key, refGzip(append(raw, rng.Bytes(1+op.Arg%40)...)))
+	case "append-entry": // payload || one more well-formed TileLeaf
+		raw, err := refGunzip(cur)
+		if err != nil {
+			return false
+		}
+		extra := refTileLeaf(nil, &RefEntry{Timestamp: 1, Cert: rng.Bytes(10), LeafIndex: int64(op.Arg)})
+		env.W.Put(key, refGzip(append(raw, extra...)))
 	case "swap":
 		other := keys[(op.Pick+1+op.Arg%len(keys))%len(keys)]
 		if other == key {
@@ -167,17 +180,31 @@ func applyTamper(env *LogEnv, rng *Rng, op *TamperOp) bool {
 func runTamperCase(r *Run, bases *baseStates, tc *tamperCase) {
 	env := bases.envs[tc.Start].Fork()
 	env.AuditPub = false
+	env.AuditUploads = true
 	env.CaseInfo = func() any { return tc }
 	defer env.Cleanup()
 	r.Eval(1)
 	rng := NewRng(int64(tc.Start*977+tc.Pool+len(tc.Ops)), "c08")
+	var tamperedIssuers [][]byte // original bytes of issuer objects that were altered
 	var li *LogInst
 	var err error
 	tamper := func() int {
 		n := 0
 		for i := range tc.Ops {
+			var before map[string][]byte
+			if tc.Ops[i].Class == "issuer" {
+				before = map[string][]byte{}
+				for _, k := range keysOfClass(env.W, "issuer", 0) {
+					before[k], _ = env.W.Get(k)
+				}
+			}
 			if applyTamper(env, rng, &tc.Ops[i]) {
 				n++
+				for k, b := range before {
+					if now, ok := env.W.Get(k); (!ok || !bytes.Equal(now, b)) && fmt.Sprintf("issuer/%x", refSHA(b)) == k {
+						tamperedIssuers = append(tamperedIssuers, b)
+					}
+				}
 			}
 		}
 		return n
@@ -237,11 +264,30 @@ func runTamperCase(r *Run, bases *baseStates, tc *tamperCase) {
 		for i := 0; i < k; i++ {
 			subs = append(subs, li.Submit(genEntry(rng, cheapShape(rng)), false))
 		}
+		// several submissions through each issuer whose stored object was altered
+		for _, ib := range tamperedIssuers {
+			for i := 0; i < 3; i++ {
+				e := genEntry(rng, ShapeBlobX509)
+				e.Issuers = [][]byte{ib}
+				subs = append(subs, li.Submit(e, false))
+			}
+		}
 		simNow.Add(7)
 		err, _ := li.Sequence(nil)
 		for _, s := range subs {
 			a := li.WaitAck(context.Background(), s)
 			a.StorageChecked = true // storage is adversarial here: judge against the truth only
+			if a.OK {
+				// an acknowledged entry's issuers must be retrievable and genuine
+				for _, ib := range s.E.Issuers {
+					fp := refSHA(ib)
+					if got, ok := env.W.Get(fmt.Sprintf("issuer/%x", fp)); !ok || refSHA(got) != fp {
+						// informational: outside the statement (no checkpoint is affected)
+						r.Count("info_acked_with_altered_issuer_object", 1)
+					}
+				}
+				r.Count("acks_after_tamper", 1)
+			}
 		}
 		if err != nil {
 			outcome = "round-fatal"
@@ -277,13 +323,15 @@ func TestC08Tamper(t *testing.T) {
 		return
 	}
 	classes := []string{"checkpoint", "hash", "hash-edge", "data", "names", "staging", "issuer", "roots"}
-	kinds := []string{"delete", "empty", "truncate", "flip", "flip-payload", "swap", "rollback", "fork-checkpoint", "bad-gzip", "gzip-bomb"}
+	kinds := []string{"delete", "empty", "truncate", "flip", "flip-payload", "swap", "rollback", "fork-checkpoint", "bad-gzip", "gzip-bomb", "append-junk", "append-entry"}
 	valid := func(class, kind string) bool {
 		switch kind {
 		case "fork-checkpoint":
 			return class == "checkpoint"
 		case "flip-payload", "bad-gzip", "gzip-bomb":
 			return class == "data" || class == "names" || class == "staging"
+		case "append-junk", "append-entry":
+			return class == "data"
 		case "swap":
 			return class != "checkpoint" && class != "roots" && class != "staging"
 		}
